@@ -421,7 +421,7 @@ pub struct Knobs {
     /// re-executed concurrently by real, unscheduled threads and compared with their quiescent
     /// results. A scout for races inside added code; NOT deterministic, see DESIGN.md §2.8
     pub stress: u64,
-    /// scenario tag (informational): 0 random mix, 1 contention palette, 2 sweep, 3 C07 battery
+    /// scenario tag (informational): 0 random mix, 1 contention palette, 2 sweep, 3 C07 battery, 4 C12 clone family
     pub scn: u64,
 }
 
@@ -1041,9 +1041,70 @@ fn generate_battery(seed: u64, r: &mut Rng) -> RunTrace {
     RunTrace { seed, knobs: Knobs { slots, preempt: 0, heap: 0, iso: 0, repeat: 0, stress: 0, scn: 3 }, pre: Vec::new(), threads, sched: Vec::new() }
 }
 
+/// Miri workload for C12: a "clone family". One float image and a clone of it sit in two slots;
+/// 2-3 threads keep cloning either into either slot, writing through `data_mut`, reading back and
+/// converting by value - the operations between which any buffer sharing a change introduces
+/// (copy-on-write, recycling) has to stay invisible.
+fn generate_clone_family(seed: u64, r: &mut Rng) -> RunTrace {
+    let class = r.range(CL_RGB, CL_HSL);
+    let (a, b) = (class, class + 6);
+    let mut new = Op::blank(Kind::NewFloat);
+    new.which = class;
+    new.slot = a;
+    let (w, h) = (r.range(1, 3), r.range(1, 2));
+    new.geo[0] = w * h;
+    new.geo[1] = w;
+    new.geo[2] = h;
+    new.t = 1 + r.below(N_SUP_TRCS);
+    new.p = 1 + r.below(10);
+    new.dataseed = r.next();
+    new.datamode = if class == CL_HSL { 3 } else { 0 };
+    let mut cl = Op::blank(Kind::CloneTo);
+    cl.src = a;
+    cl.slot = b;
+    let mut threads = Vec::new();
+    for _ in 0..r.range(2, 3) {
+        let mut ops = Vec::new();
+        for _ in 0..r.range(4, 6) {
+            let mut op = match r.below(10) {
+                0..=3 => {
+                    let mut o = Op::blank(Kind::CloneTo);
+                    o.src = r.pick(&[a, b]);
+                    o.slot = r.pick(&[a, b]);
+                    o
+                }
+                4..=6 => {
+                    let mut o = Op::blank(Kind::Mutate);
+                    o.slot = r.pick(&[a, b]);
+                    o.which = r.range(1, 3);
+                    o.dataseed = r.next();
+                    o
+                }
+                7..=8 => {
+                    let mut o = Op::blank(Kind::Read);
+                    o.slot = r.pick(&[a, b]);
+                    o
+                }
+                _ => {
+                    let mut o = Op::blank(Kind::Rewrap);
+                    o.slot = r.pick(&[a, b]);
+                    o
+                }
+            };
+            op.datamode = if class == CL_HSL { 3 } else { 0 };
+            ops.push(op);
+        }
+        threads.push(ops);
+    }
+    RunTrace { seed, knobs: Knobs { slots: 12, preempt: 0, heap: 0, iso: 0, repeat: 0, stress: 0, scn: 4 }, pre: vec![new, cl], threads, sched: Vec::new() }
+}
+
 /// Generates the explicit programme of one run from its seed.
 pub fn generate(seed: u64, prof: Profile, miri: bool) -> RunTrace {
     let mut r = Rng::new(seed ^ 0xd51_0000_0000 ^ (prof as u64) << 56);
+    if miri && prof == Profile::Constructors && r.pct(60) {
+        return generate_clone_family(seed, &mut r);
+    }
     if miri && prof == Profile::Safety && r.pct(50) {
         return generate_battery(seed, &mut r);
     }
